@@ -4,9 +4,12 @@ package loadaware
 // the real LowNodeLoad.Balance (struct-literal plugin, recording evictor) and judged call by call by c18Judge.
 
 import (
+	"encoding/binary"
 	"fmt"
 	"hash/fnv"
+	"math/bits"
 	"testing"
+	"time"
 
 	"github.com/koordinator-sh/koordinator/pkg/zzverif/mc"
 )
@@ -134,11 +137,33 @@ type c18Part struct {
 
 func c18Digest(cfg *c18Cfg, rd *c18Round, calls []c18Call) uint64 {
 	h := fnv.New64a()
-	fmt.Fprint(h, *cfg)
-	for _, n := range rd.Nodes {
-		fmt.Fprint(h, n.Alloc, n.Amp, n.Metric, n.Unsched, n.Sys, n.Pods, "|")
+	var buf [8]byte
+	w := func(vs ...int64) {
+		for _, v := range vs {
+			binary.LittleEndian.PutUint64(buf[:], uint64(v))
+			h.Write(buf[:])
+		}
 	}
-	fmt.Fprint(h, calls)
+	b := func(x bool) int64 {
+		if x {
+			return 1
+		}
+		return 0
+	}
+	for r := 0; r < 2; r++ {
+		w(int64(cfg.Low[r]), int64(cfg.High[r]), int64(cfg.ProdLow[r]), int64(cfg.ProdHigh[r]))
+	}
+	w(b(cfg.Deviation), int64(cfg.NumNodes), b(cfg.NodeFit), int64(cfg.AnomalyK), int64(cfg.AnomalyN), int64(cfg.RejMech), int64(cfg.FailMask))
+	for _, n := range rd.Nodes {
+		w(n.Alloc[0], n.Alloc[1], n.Amp, int64(n.Metric), b(n.Unsched), n.Sys[0], n.Sys[1], int64(len(n.Pods)))
+		for _, p := range n.Pods {
+			w(p.CPU, p.Mem, b(p.Prod), int64(p.Flag))
+		}
+	}
+	w(-1)
+	for _, c := range calls {
+		w(int64(c.Node), int64(c.Pod), b(c.OK), b(c.FilterPass))
+	}
 	return h.Sum64()
 }
 
@@ -180,8 +205,14 @@ func c18RunPart(env *mc.Env, p *c18Part) {
 		}
 	}
 	total := p.size * int64(len(p.cfgs))
-	// snapshot index is the fast dimension, so neighbouring cases share the configuration
+	// the range is walked in a fixed stride permutation (i -> i*P mod total, P prime and coprime to total): complete
+	// runs cover exactly the same set, a run capped by the time budget covers a spread instead of a corner
+	stride := int64(1000003)
+	for total%stride == 0 {
+		stride = 999983
+	}
 	done, complete := env.ParallelRangeL(res, total, func(l *mc.Local, i int64) {
+		i = c18MulMod(i, stride, total)
 		ci := int(i / p.size)
 		cfg := &p.cfgs[ci]
 		var rd c18Round
@@ -204,6 +235,13 @@ func c18RunPart(env *mc.Env, p *c18Part) {
 	}
 	c18Vacuity(res, p.name)
 	env.Emit(res)
+}
+
+// c18MulMod computes a*b mod m without overflow for m < 2^62 (a < m, b < 2^20).
+func c18MulMod(a, b, m int64) int64 {
+	hi, lo := bits.Mul64(uint64(a), uint64(b))
+	_, rem := bits.Div64(hi%uint64(m), lo, uint64(m))
+	return int64(rem)
 }
 
 var c18Assumptions = []string{
@@ -507,7 +545,16 @@ func TestVerifC18Round(t *testing.T) {
 		parts = append(parts, c18LoopPart("round-loop", false))
 		parts = append(parts, c18GatePart("round-gate", 3, []c18Vec{c18AllocA}, false))
 	}
+	// cumulative deadlines proportional to the size of the parts (a slow machine caps every part a little instead
+	// of starving the last one)
+	total := env.Budget
+	var all, cum int64
 	for _, p := range parts {
+		all += p.size*int64(len(p.cfgs)) + 20000
+	}
+	for _, p := range parts {
+		cum += p.size*int64(len(p.cfgs)) + 20000
+		env.Budget = time.Duration(float64(total) * float64(cum) / float64(all))
 		c18RunPart(env, p)
 	}
 }
